@@ -78,6 +78,7 @@ def _apply(cx, mido, entry, type_, base, vals, t0, attr, value):
             words.append('%s=%s' % (attr, value))
         # a word that looks like a constructor argument must never switch the checks off
         extra = ['', 'skip_checks=1', 'skip_checks=0'][cx.choice('extra_word', 3)] if getattr(cx, 'extra_words', False) else ''
+        cx.extra_word_used = bool(extra)
         if extra:
             words.insert(1 + cx.choice('extra_pos', len(words)), extra)
         text = ' '.join(words)
@@ -97,8 +98,9 @@ def int_attr(cx, type, attr, entry):
     snap = dict(vars(base))
     res, exc = cx.raises(_apply(cx, mido, entry, type, base, vals, t0, attr, v), *REJECT, label='reject-type')
     if exc is not None:
-        if not (entry == 'from_str' and cx.valid(ok)):
-            # (a from_str text carrying a skip_checks word is rejected whatever the value: not judged here)
+        if not (entry == 'from_str' and getattr(cx, 'extra_word_used', False)):
+            # (a from_str text carrying a skip_checks word is rejected whatever the value - and an implementation
+            # may notice the word before or after it looks at the value: not judged here)
             cx.check(cx.Not(ok), 'rejected=>invalid')
         cx.check(_unchanged(base, snap), 'rejected-leaves-original')
         return
